@@ -400,6 +400,13 @@ func (x *Exec) applyContract(fr *Frame, st *State, c *Contract, fn *ssa.Function
 	env := &SpecEnv{x: x, vars: vars, cur: pre, old: pre, pkg: pkg, posHint: hint}
 	for _, r := range c.Requires {
 		t := x.guardedEval(func() *Term { return env.evalBool(r.E) }, c, r)
+		if x.rootFrame != nil && x.rootFrame.contract != nil && x.rootFrame.contract.NoSafety {
+			// safety (incl. callee preconditions) is not claimed for this function: the callee's
+			// precondition is assumed instead, and listed
+			x.trusted["nosafety: preconditions of "+name+" assumed at its call in "+funcDisplayName(x.rootFrame.fn)] = true
+			x.assume(st, t)
+			continue
+		}
 		x.oblige(fr, st, "call.pre", name, labelOr(r.Label, ""), t, pos, r.Src)
 	}
 	// frame
